@@ -54,11 +54,43 @@ def func_object(spec):
     return _OBJECTS[spec]
 
 
+def arg_object(spec):
+    """other mutable objects a caller may hand in, the SAME object for every call of the process: a ReindexStrategy
+    ('strategy:none'), expected_groups as a pandas Index ('index:unsorted'), a finalize_kwargs dict ('fk:ddof1')"""
+    if spec not in _OBJECTS:
+        if spec == "strategy:none":
+            from flox.core import ReindexStrategy
+
+            _OBJECTS[spec] = ReindexStrategy(blockwise=None)
+        elif spec == "index:unsorted":
+            import pandas as pd
+
+            _OBJECTS[spec] = pd.Index([2, 0, 1, 3])
+        elif spec == "fk:ddof1":
+            _OBJECTS[spec] = {"ddof": 1}
+        else:
+            raise KeyError(spec)
+    return _OBJECTS[spec]
+
+
+def prepare(cfg):
+    """create (once per process) the argument objects a call refers to, so that a snapshot taken before the call sees them"""
+    if cfg.get("func_obj"):
+        func_object(cfg["func_obj"])
+    for k in ("reindex_obj", "expected_obj", "fk_obj"):
+        if cfg.get(k):
+            arg_object(cfg[k])
+
+
 def objects_snapshot() -> str:
-    """structural snapshot of every Aggregation instance handed to flox so far"""
+    """structural snapshot of every object (Aggregation instance, ReindexStrategy, Index, dict) handed to flox so far"""
     parts = []
     for k in sorted(_OBJECTS):
-        parts.append((k, {kk: repr(vv) for kk, vv in sorted(vars(_OBJECTS[k]).items())}))
+        o = _OBJECTS[k]
+        if isinstance(o, dict) or not hasattr(o, "__dict__") or k.startswith("index:"):
+            parts.append((k, repr(o if isinstance(o, dict) else list(o))))
+        else:
+            parts.append((k, {kk: repr(vv) for kk, vv in sorted(vars(o).items())}))
     return hashlib.sha1(json.dumps(parts, sort_keys=True).encode()).hexdigest()[:16]
 
 
@@ -92,6 +124,12 @@ def make(cfg, store=None):
         fk["q"] = cfg["q"]
     if fk:
         kw["finalize_kwargs"] = fk
+    if cfg.get("reindex_obj"):
+        kw["reindex"] = arg_object(cfg["reindex_obj"])
+    if cfg.get("expected_obj"):
+        kw["expected_groups"] = arg_object(cfg["expected_obj"])
+    if cfg.get("fk_obj"):
+        kw["finalize_kwargs"] = arg_object(cfg["fk_obj"])
     res = groupby_reduce(arr, by, **kw)
     if cfg.get("with_groups"):
         # the labels belong to the result: for chunked labels without expected_groups they are lazy too
